@@ -28,6 +28,7 @@ func VerifH_C01_Encode() {
 	err := send(verifLog, w, tag(tg), m)
 	verifAssert(err == nil, "send succeeds")
 	verifReach("encoded")
+	verifOut("frame", w.data)
 	verifAssert(len(w.data) == len(want), "frame length as specified")
 	verifAssert(verifBytesDiff(w.data, want) == 0, "frame bytes as specified")
 	verifAssert(uint8(m.typ()) == t, "typ() is the wire type")
